@@ -11,7 +11,6 @@ import (
 
 // placeholders extended later (reflect shim, more stubs)
 
-
 // computeInjectedImpl obtains the two registry scalars the palette code reads
 // from packages whose init is not executed symbolically (DESIGN 3.3): a native
 // run against the current tree prints them.
